@@ -45,6 +45,8 @@ PROPS = {
              ["INV as written in harness/world.go characterises consistent storage; the ghost model update is the documented effect (DESIGN.md A.1)"]),
     "C04": P("relation shape as C01: SetRelations and RemoveEntity of every tracked entity (parents, children, dead handles) in 3 variants incl. emptied relation tables and a recycled parent id; relation index invariant (I-rel) and ghost targets checked after",
              "all 5 variants, pads 126/190, two-operation histories incl. Shrink", "RemoveEntities batch with several targets (C06 harness); chains deeper than 1"),
+    "C09": P("checking callbacks for all 7 built-in event types during every single operation of the C01 step harnesses (both shapes, valid calls): entity alive, is the affected entity, in exactly one row (Filter0 query from inside the callback), composition old (removals) / new (others), values and targets current, lock state as documented; emitted event multiset equals the documented one; batch AddBatch(relation)/RemoveBatch(relation)/RemoveEntities/SetRelationsBatch with symbolic filter: phase (removal events before any change, others after all), once per affected entity, locked",
+             "same", "user callbacks that mutate; more than one observer per event type (C08)"),
     "C10": P("every rejected call of the C01/C04 step harnesses (dead entity: never reused and recycled id; duplicate / already present / missing component; dead or recycled relation target; exchange of same component) must panic and leave model, INV and lock state unchanged",
              "same", "batch operations (lock state covered by C07); *Unchecked accessors; typed arities > 2"),
     "C05": P("registered Filter1/Filter2 with FULLY symbolic with/without masks and symbolic relation target (filter or per query) over both shapes: the cached walk/Count equals the model set (= uncached semantics); register/unregister bookkeeping",
